@@ -3,7 +3,7 @@
 other implementations), compiled with the options the examples' own makefiles use.  No model of these
 specifications exists here: what is judged is what needs none (agreement with the foreign bytes,
 agreement between syntaxes, builds and option sets, memory safety, accounting)."""
-import glob, os, re
+import glob, os, re, subprocess
 from concurrent.futures import ThreadPoolExecutor
 from . import build
 
@@ -37,13 +37,31 @@ class Real:
         self.gen = None
 
 
-def spec_paths(tc, name):
-    return sorted(glob.glob(os.path.join(tc.repo, "examples", SPECS[name][0])))
+RFC_TEXT = {"PKIX1": "rfc3280.txt", "LDAP3": "rfc4511.txt"}
+
+
+def spec_paths(tc, name, scratch=None):
+    """the specification files; those the project's build extracts from an RFC text (examples/crfc2asn1.pl, the results are
+    not tracked) are extracted here the same way from the tree's own script and text, so that an unbuilt tree will do"""
+    ex = os.path.join(tc.repo, "examples")
+    src = RFC_TEXT.get(name)
+    if src and os.path.exists(os.path.join(ex, src)) and os.path.exists(os.path.join(ex, "crfc2asn1.pl")):
+        d = os.path.join(scratch or build.scratch_dir("rfc"), "rfc-" + name)
+        os.makedirs(d, exist_ok=True)
+        try:
+            subprocess.run(["perl", os.path.join(ex, "crfc2asn1.pl"), os.path.join(ex, src)], cwd=d, stdout=subprocess.PIPE,
+                           stderr=subprocess.PIPE, timeout=120)
+        except Exception:
+            pass
+        got = sorted(glob.glob(os.path.join(d, SPECS[name][0])))
+        if got:
+            return got
+    return sorted(glob.glob(os.path.join(ex, SPECS[name][0])))
 
 
 def make(tc, name, options=None, variant="asan", driver="vdriver", wrap_alloc=True, root=None):
     b = Real(name)
-    paths = spec_paths(tc, name)
+    paths = spec_paths(tc, name, root)
     b.options = tuple(SPECS[name][1] if options is None else options)
     b.text = "shipped examples/%s compiled with [%s]" % (SPECS[name][0], " ".join(b.options))
     if not paths:
